@@ -222,6 +222,33 @@ pub fn run(ctx: &Ctx) {
         }
     });
     ctx.run.space(json!({"channels": "-f file, - (stdin), -f - (file name on stdin)", "flag_subsets": ch_subsets.len(), "bound": if thorough {"<=3 of 16 flags"} else {"<=2 of 16 flags"}, "inputs": ch_inputs.len(), "endings": "LF/CRLF x final newline/none"}));
+    // content features at line boundaries: every feature at the start of the first line, the start of a later
+    // line, the end of the first line, the end of the last line, and as a line of its own -- on every channel
+    let features: Vec<&str> = vec!["\u{feff}", " ", "\t", "\u{b}", "\u{c}", "\u{85}", "\u{a0}", "\u{2028}", "\u{200b}", "-", "--", "#", "\\", "\"", "'", "\u{1b}", "\u{301}", "\u{7f}", "@", "~"];
+    let mut feat_inputs: Vec<Vec<String>> = vec![];
+    for x in &features {
+        feat_inputs.push(vec![format!("{x}ab"), "cd".to_string()]);
+        feat_inputs.push(vec!["ab".to_string(), format!("{x}cd")]);
+        feat_inputs.push(vec![format!("ab{x}"), "cd".to_string()]);
+        feat_inputs.push(vec!["ab".to_string(), format!("cd{x}")]);
+        feat_inputs.push(vec![x.to_string(), "b".to_string()]);
+        feat_inputs.push(vec![format!("{x}{x}a{x}")]);
+    }
+    let feat_subsets = if thorough { subsets_le(2) } else { subsets_le(1) };
+    par_for(feat_subsets.len() * feat_inputs.len(), |j| {
+        let sub = feat_subsets[j / feat_inputs.len()];
+        let inp = &feat_inputs[j % feat_inputs.len()];
+        case(ctx, &bin, &dir, sub, j % 2 == 0, (1, 1), inp, Channel::Args, false, false, uid.fetch_add(1, Ordering::Relaxed) as usize);
+        for ch in [Channel::File, Channel::Stdin, Channel::FileFromStdin] {
+            for crlf in [false, true] {
+                for fin in [true, false] {
+                    case(ctx, &bin, &dir, sub, j % 2 == 0, (1, 1), inp, ch, crlf, fin, uid.fetch_add(1, Ordering::Relaxed) as usize);
+                }
+            }
+        }
+    });
+    ctx.run.space(json!({"channels": "arguments, -f file, - (stdin), -f - (file name on stdin)", "flag_subsets": feat_subsets.len(), "bound": if thorough {"<=2 of 16 flags"} else {"<=1 of 16 flags"},
+        "inputs": feat_inputs.len(), "universe": "content features at line boundaries: BOM, space, tab, VT, FF, NEL, NBSP, U+2028, ZWSP, -, --, #, backslash, quotes, ESC, combining acute, DEL, @, ~ -- at the start of the first / a later line, the end of the first / last line, as a line of its own, and doubled around a letter", "endings": "LF/CRLF x final newline/none"}));
     // error inputs
     let empty = format!("{dir}/empty.txt");
     std::fs::write(&empty, b"").unwrap();
